@@ -563,13 +563,13 @@ def blocking_prefix(calls, cids):
     return out
 
 
-def judge_paths(obs, calls, workdir):
+def judge_paths(obs, calls, workdir, parts=16):
     os.makedirs(workdir, exist_ok=True)
     cpath = os.path.join(workdir, "calls.json")
     with open(cpath, "w") as f:
         json.dump({"calls": calls}, f)
     try:
-        return judge.run_judge("JudgeC10", obs, workdir, env={"C10_CALLS": cpath})
+        return judge.run_judge("JudgeC10", obs, workdir, parts=parts, env={"C10_CALLS": cpath})
     finally:
         try:
             os.remove(cpath)
@@ -577,8 +577,9 @@ def judge_paths(obs, calls, workdir):
             pass
 
 
-def digest(v, fails, obs_by_id, calls, info):
-    """Turn the judge's failure list into verdict lines.  Returns (judged, skipped, clause counts)."""
+def digest(v, fails, obs_by_id, calls, replay_of=None):
+    """Turn the judge's failure list into verdict lines.  Returns (judged, skipped, clause counts).
+    replay_of: the replay file being re-judged (it stays the reproducer; no new file is written)."""
     judged = skipped = 0
     cl = collections.Counter()
     for f in fails:
@@ -597,11 +598,14 @@ def digest(v, fails, obs_by_id, calls, info):
             cs = [calls[s["c"] - 1] for s in o["steps"][:k]]
             cl[f["clause"] + "|"] += 1
             st = o["steps"][k - 1]
-            v.violation({"property": "C10", "front": o["front"], "calls": cs, "labels": [call_label(c) for c in cs],
-                         "step": k, "clause": f["clause"], "observed": st},
-                        "%s: %s front, after %s the call %s was answered %s %s (stores %s)" % (
-                            f["clause"], o["front"], [call_label(c) for c in cs[:-1]], call_label(cs[-1]), st["st"],
-                            st["ty"] or json.dumps(st["b"])[:160], "unchanged" if st["same"] else "changed: %s" % st["chg"]))
+            text = "%s: %s front, after %s the call %s was answered %s %s (stores %s)" % (
+                f["clause"], o["front"], [call_label(c) for c in cs[:-1]], call_label(cs[-1]), st["st"],
+                st["ty"] or json.dumps(st["b"])[:160], "unchanged" if st["same"] else "changed: %s" % st["chg"])
+            if replay_of:
+                v.violations.append((replay_of, text))
+            else:
+                v.violation({"property": "C10", "front": o["front"], "calls": cs, "labels": [call_label(c) for c in cs],
+                             "step": k, "clause": f["clause"], "observed": st}, text)
     return judged, skipped, cl
 
 
@@ -616,7 +620,7 @@ def run_replay(v, path):
         print("   %-60s -> %s %s %s" % (call_label(c), s["st"], s["ty"], "" if s["same"] else "stores changed: %s" % s["chg"]))
     obs = [{"id": 1, "pid": 0, "front": rp.get("front", "asyncio"), "steps": steps}]
     fails, stats = judge_paths(obs, calls, os.path.join(RUN, "C10-replay"))
-    judged, skipped, cl = digest(v, fails, {1: obs[0]}, calls, {})
+    judged, skipped, cl = digest(v, fails, {1: obs[0]}, calls, replay_of=path)
     v.coverage = {"states": stats["states"] or 1, "transitions": max(stats["transitions"], 1),
                   "traces_validated_against_impl": 1, "evaluations": judged, "samples": [rp.get("labels")]}
     return v.finish()
@@ -636,9 +640,9 @@ def run(tier_name=None, replay=None):
     rng = random.Random(seed * 7919 + 10)
     work = os.path.join(RUN, "C10-" + t)
     cap = 10 if thorough else 6
-    max_calls = 900000 if thorough else 20000
-    sample_selfloops = 400000 if thorough else 6000
-    max_big = 3000 if thorough else 100
+    max_calls = 900000 if thorough else 15000
+    sample_selfloops = 400000 if thorough else 4500
+    max_big = 3000 if thorough else 80
     timing = {}
     # (i) the model, exhaustively
     t0 = time.time()
@@ -757,12 +761,12 @@ def run(tier_name=None, replay=None):
     obs = [{"id": o_, "pid": o_, "front": done[o_][0], "steps": done[o_][3]} for o_ in sorted(done)]
     obs_by_id = {o["id"]: o for o in obs}
     try:
-        fails, stats = judge_paths(obs, calls, work)
+        fails, stats = judge_paths(obs, calls, work, parts=16 if thorough else 8)
     except Exception as ex:
         v.machinery_failure(str(ex)[:1500])
         return v.finish()
     timing["judge_s"] = round(time.time() - t0, 1)
-    judged, skipped, cl = digest(v, fails, obs_by_id, calls, {})
+    judged, skipped, cl = digest(v, fails, obs_by_id, calls)
     ncalls = sum(len(o["steps"]) for o in obs)
     if judged + skipped != ncalls:
         v.machinery_failure("the judge accounted for %d + %d calls, %d were replayed" % (judged, skipped, ncalls))
